@@ -902,7 +902,11 @@ class Dict(dict, base.Symbolic, pg_typing.CustomTyping):
               value = self.sym_inferred(key, default=value)
             if pg_typing.MISSING_VALUE == value:
               continue
-            if hide_default_values and base.eq(value, field.default_value):
+            if (hide_default_values
+                and isinstance(key_spec, pg_typing.ConstStrKey)
+                and base.eq(value, field.default_value)):
+              # NOTE: only a declared (const) key is restored with its default
+              # on load; under a pattern key the entry itself would be lost.
               continue
             json_repr[key] = base.to_json(
                 value,
